@@ -42,6 +42,8 @@ def fold_chars(repo, cls, attr):
     if expr is None:
         raise AnalysisError(f"{cls.name}.{attr} not found")
 
+    busy = set()
+
     def ev(e):
         if isinstance(e, ast.Constant):
             return e.value
@@ -51,6 +53,30 @@ def fold_chars(repo, cls, attr):
             return ev(e.func.value).replace(ev(e.args[0]), ev(e.args[1]))
         if isinstance(e, ast.BinOp) and isinstance(e.op, ast.Add):
             return ev(e.left) + ev(e.right)
+        if isinstance(e, ast.Name) and e.id not in busy:
+            # a module constant bound exactly once at the top level of the module that defines the class
+            binds = [st for st in owner.module.tree.body if isinstance(st, (ast.Assign, ast.AnnAssign)) and any(isinstance(t, ast.Name) and t.id == e.id for t in (st.targets if isinstance(st, ast.Assign) else [st.target]))]
+            stores = [n for n in ast.walk(owner.module.tree) if isinstance(n, ast.Name) and n.id == e.id and isinstance(n.ctx, (ast.Store, ast.Del))]
+            if len(binds) == 1 and len(stores) == 1 and binds[0].value is not None:
+                busy.add(e.id)
+                try:
+                    return ev(binds[0].value)
+                finally:
+                    busy.discard(e.id)
+        if (isinstance(e, ast.Call) and isinstance(e.func, ast.Attribute) and e.func.attr == "join" and isinstance(e.func.value, ast.Constant) and e.func.value.value == ""
+                and len(e.args) == 1 and not e.keywords and isinstance(e.args[0], (ast.GeneratorExp, ast.ListComp)) and len(e.args[0].generators) == 1):
+            # "".join(c for c in <set> if c [not] in <set> ...): the characters of the first set that pass the filters, in order
+            comp, gen = e.args[0], e.args[0].generators[0]
+            if isinstance(gen.target, ast.Name) and isinstance(comp.elt, ast.Name) and comp.elt.id == gen.target.id and not gen.is_async:
+                tests = []
+                for cond in gen.ifs:
+                    if (isinstance(cond, ast.Compare) and len(cond.ops) == 1 and isinstance(cond.ops[0], (ast.In, ast.NotIn, ast.Eq, ast.NotEq)) and isinstance(cond.left, ast.Name) and cond.left.id == gen.target.id):
+                        tests.append((type(cond.ops[0]), ev(cond.comparators[0])))
+                    else:
+                        break
+                else:
+                    keep = {ast.In: lambda c, v: c in v, ast.NotIn: lambda c, v: c not in v, ast.Eq: lambda c, v: c == v, ast.NotEq: lambda c, v: c != v}
+                    return "".join(c for c in ev(gen.iter) if all(keep[op](c, v) for op, v in tests))
         raise AnalysisError(f"{cls.name}.{attr}: `{norm(e)}` is not a foldable character set")
 
     return ev(expr)
